@@ -102,7 +102,7 @@ pub fn instantiate(t: &str, pickn: u16, reject_one: bool) -> String {
 // ---------------------------------------------------------------------------------------------
 // trigger pools
 pub const HOSTS: &[&str] = &["example.com", "Example.COM", "www.example.com", "example.org", "@sub.example.com", "www.@dom.@tld", "xn--bcher-kva.example", "@sub.example.org", "b\u{fc}cher.@tld", "b\u{e4}cker.@tld", "@w.example.net", "@d.example.net"];
-pub const REQ_HOSTS: &[&str] = &["example.com", "EXAMPLE.com", "Example.COM", "www.example.com", "example.org", "sub1.example.com", "www.foo.com", "www.my-site.net", "other.test", "a.example.org", "SUB1.example.com", "xn--bcher-kva.example", "b\u{fc}cher.com", "b\u{e4}cker.net", "B\u{dc}CHER.com", "caf\u{e9}.example.net", "\u{664}.example.net", "x1.example.net"];
+pub const REQ_HOSTS: &[&str] = &["example.com", "EXAMPLE.com", "Example.COM", "www.example.com", "example.org", "sub1.example.com", "www.foo.com", "www.my-site.net", "other.test", "a.example.org", "SUB1.example.com", "xn--bcher-kva.example", "b\u{fc}cher.com", "b\u{e4}cker.net", "B\u{dc}CHER.com", "caf\u{e9}.example.net", "\u{664}.example.net", "x1.example.net", ""];
 
 pub struct CidrInfo {
     pub cidr: &'static str,
@@ -117,11 +117,14 @@ pub const CIDRS: &[CidrInfo] = &[
     CidrInfo { cidr: "::1", inside: "::1", outside: "::2" },
     CidrInfo { cidr: "2001:db8::/32", inside: "2001:db8::5", outside: "2001:db9::1" },
     CidrInfo { cidr: "0.0.0.0/0", inside: "8.8.8.8", outside: "::1" },
+    CidrInfo { cidr: "::ffff:10.1.0.0/112", inside: "::ffff:10.1.2.3", outside: "10.1.2.3" },
     CidrInfo { cidr: "garbage", inside: "10.1.2.3", outside: "10.1.2.3" },
 ];
 pub const REQ_IPS: &[&str] = &["::ffff:10.1.2.3", "::ffff:192.168.1.77", "10.9.9.9", "11.0.0.1", "10.1.2.3", "10.2.0.1", "10.1.2.4", "192.168.1.77", "192.168.2.1", "::1", "::2", "2001:db8::5", "2001:db9::1", "8.8.8.8"];
 
 pub const METHODS: &[&str] = &["GET", "POST", "PUT", "DELETE"];
+/// request side: also a lower-case spelling (methods are compared as given) and an unlisted verb
+pub const REQ_METHODS: &[&str] = &["GET", "POST", "PUT", "DELETE", "get", "PATCH"];
 
 /// pivot 2024-03-10T12:00:00Z is a Sunday
 pub const INSTANTS: &[&str] = &[
@@ -551,7 +554,7 @@ pub fn derive_request(rules: &[RuleSpec], cfg: &ConfigSpec, c: &RequestChoice) -
         uri: REQ_PATHS[idx(p[0], REQ_PATHS.len())].to_string(),
         host: if p[1] % 5 == 0 { None } else { Some(REQ_HOSTS[idx(p[1], REQ_HOSTS.len())].to_string()) },
         scheme: [None, Some("http"), Some("https"), Some("ftp"), Some("http")][idx(p[2], 5)].map(|s| s.to_string()),
-        method: if p[3] % 4 == 0 { None } else { Some(METHODS[idx(p[3], METHODS.len())].to_string()) },
+        method: if p[3] % 4 == 0 { None } else { Some(REQ_METHODS[idx(p[3], REQ_METHODS.len())].to_string()) },
         ip: if p[4] % 4 == 0 { None } else { Some(REQ_IPS[idx(p[4], REQ_IPS.len())].to_string()) },
         headers: Vec::new(),
         created_at: if p[5] % 6 == 0 { None } else { Some(REQ_INSTANTS[idx(p[5], REQ_INSTANTS.len())].to_string()) },
